@@ -188,6 +188,49 @@ func (x *Base) Self() string  { return renderGo(x) }
 func (x *Deep4) Self() string { return renderGo(x) }
 func (x *Chain) Self() string { return renderGo(x) }
 
+// Car / Engine: methods that hand back a pointer the receiver's Go object owns (the receiver itself, a nested struct).
+type Engine struct {
+	Model string `json:"model"`
+	Power int64  `json:"power"`
+}
+type Car struct {
+	Name   string  `json:"name"`
+	Engine *Engine `json:"engine"`
+	Spare  *Engine `json:"spare"`
+	Miles  int64
+}
+
+func (c *Car) Me() *Car                      { return c }
+func (c *Car) GetEngine() *Engine            { return c.Engine }
+func (c *Car) GetSpare() *Engine             { return c.Spare }
+func (c *Car) Self() string                  { return renderGo(c) }
+func (e *Engine) Me() *Engine                { return e }
+func (e *Engine) Self() string               { return renderGo(e) }
+func (x *Leaf) Me() *Leaf                    { return x }
+func (x *Clash) Me() *Clash                  { return x }
+func (e *Echoer) SeeCar(x *Car) string       { return renderGo(x) }
+func (e *Echoer) SeeEngine(x *Engine) string { return renderGo(x) }
+
+// Priv: state kept in UNEXPORTED fields of every kind (SexpToGoStructs reaches them through unexportHelper).
+type Priv struct {
+	Owner   string `json:"owner"`
+	balance int64
+	note    string
+	ratio   float64
+	on      bool
+	raw     []byte
+	tags    []string
+	nums    []int64
+	limits  *Leaf
+	shape   Shape
+	kids    []*Leaf
+	names   map[string]string
+	Last    int64 `json:"last"`
+}
+
+func (x *Priv) Self() string             { return renderGo(x) }
+func (e *Echoer) SeePriv(x *Priv) string { return renderGo(x) }
+
 type regEntry struct {
 	name string
 	mk   func() interface{}
@@ -204,6 +247,9 @@ var regTable = []regEntry{
 	{"echoer", func() interface{} { return &Echoer{} }},
 	{"deep4", func() interface{} { return &Deep4{} }},
 	{"chain", func() interface{} { return &Chain{} }},
+	{"engine", func() interface{} { return &Engine{} }},
+	{"car", func() interface{} { return &Car{} }},
+	{"priv", func() interface{} { return &Priv{} }},
 }
 
 func registerTypes() {
